@@ -1016,7 +1016,7 @@ def main(prop, modname, extra_engines=None, level="other", argv=None):
         return do_replay(prop, mod, a.replay)
     t0 = time.time()
     specs = mod.obligations(a.tier)
-    idxs = [i for i, s in enumerate(specs) if a.only is None or a.only in s.name]
+    idxs = [i for i, s in enumerate(specs) if a.only is None or a.only in (s.name + "[" + json.dumps(s.cfg, sort_keys=True, default=str) + "]")]
     if a.list:
         for i in idxs:
             print(specs[i].name, json.dumps(specs[i].cfg, sort_keys=True, default=str))
